@@ -4,7 +4,7 @@
    state what the FIFO and LRU models guarantee in the property's own terms, and the membership
    laws that let the generic theorems (C05, C13, C18) apply to the containers. *)
 From Coq Require Import List NArith Bool Permutation Sorted.
-From FV Require Import Mem.Shard Mem.Algo Mem.Concrete Mem.AlgoThms Mem.SieveThms.
+From FV Require Import Mem.Shard Mem.Algo Mem.Concrete Mem.AlgoThms Mem.SieveThms Mem.S3Thms.
 Import ListNotations.
 Open Scope N_scope.
 
@@ -110,6 +110,30 @@ Theorem c14_pop_members_sieve : forall s e s',
                map fst (v_q s') = remove_nth p (map fst (v_q s)).
 Proof. exact sieve_pop_members. Qed.
 Print Assumptions c14_pop_members_sieve.
+
+(* S3-FIFO, the published rules of the two queues, for every state *)
+Theorem c14_s3_small_queue : forall pre s e f post,
+  Forall (fun p => s_thr s <= snd p) pre -> f < s_thr s ->
+  s3_evict_small (pre ++ (e, f) :: post) s =
+    (Some e, ghost_push (s3_with_queues s post (s_main s ++ pre) (s_sw s - wsum2 pre - ew e) (s_mw s + wsum2 pre)) (eh e) (ew e)).
+Proof. exact evict_small_promotes. Qed.
+Print Assumptions c14_s3_small_queue.
+
+Theorem c14_s3_main_queue_second_chance : forall pre fuel s e post,
+  s_main s = pre ++ (e, 0) :: post -> Forall (fun p => 0 < snd p) pre -> (length pre < fuel)%nat ->
+  s3_evict_main fuel s = Some (e, s3_with_queues s (s_small s) (post ++ map dec pre) (s_sw s) (s_mw s - ew e)).
+Proof. exact evict_main_second_chance. Qed.
+Print Assumptions c14_s3_main_queue_second_chance.
+
+(* frequencies are capped at 3 (lookups, insertions), so the second-chance scan ends within its bound and a non-empty
+   cache always yields a victim *)
+Theorem c14_s3_frequency_capped : forall s i e, S3Inv s -> S3Inv (s3_acquire s i) /\ S3Inv (s3_push s e).
+Proof. intros s i e H. split; [apply S3Inv_acquire|apply S3Inv_push]; exact H. Qed.
+Print Assumptions c14_s3_frequency_capped.
+
+Theorem c14_s3_pop_total : forall s, S3Inv s -> s_small s <> [] \/ s_main s <> [] -> exists e s', s3_pop s = Some (e, s').
+Proof. exact s3_pop_total. Qed.
+Print Assumptions c14_s3_pop_total.
 
 (* closed examples of the published rules on the models, evaluated by the kernel *)
 Example c14_sieve_hand :
